@@ -81,6 +81,7 @@ def line_numbers(ctx, line, labels, window, forced=None):
         lp = line.get_full_logprobs()
     al = align_text(-lp, labels, lp.shape[1] - 1)
     out["al"] = [int(x) for x in al]
+    out["lp"] = np.asarray(lp, dtype=np.float64)
     if forced is not None:
         out["line_conf"] = np.asarray(ctx.must("get_line_confidence_raises", get_line_confidence, line, labels, np.asarray(forced[0]), lp), dtype=np.float64)
     elif window:
@@ -104,6 +105,31 @@ def body_line(ctx, case):
     lc = nums["line_conf"]
     ctx.check(lc.shape == (len(labels),) and np.all(np.isfinite(lc)) and np.all(lc >= 0) and np.all(lc <= 1 + 1e-9),
               "char_confidence_out_of_range", lambda: "confidences %r; " % (lc,) + desc())
+    # bounds that follow from the definition "aligned label probability minus best competing probability, clipped at 0"
+    # whatever the exact extent of the competing window: the aligned frame belongs to it, the whole line contains it
+    P = np.exp(nums["lp"])
+    al = nums["al"]
+    shortcut = line.logits.shape[0] == len(labels)
+    for i, lab in enumerate(labels):
+        p_lab = float(P[al[i], lab])
+        ctx.check(lc[i] <= p_lab + 1e-5, "char_confidence_exceeds_aligned_label_probability",
+                  lambda: "char %d: confidence %r, posterior of its label at its frame %r; " % (i, lc[i], p_lab) + desc())
+        if shortcut:
+            continue
+        skip = {lab, C - 1}
+        if i > 0:
+            skip.add(labels[i - 1])
+        if i + 1 < len(labels):
+            skip.add(labels[i + 1])
+        others = [c for c in range(C) if c not in skip]
+        if not others:
+            continue
+        q_here = float(P[al[i], others].max())
+        q_any = float(P[:, others].max())
+        ctx.check(lc[i] <= max(0.0, p_lab - q_here) + 1e-5, "char_confidence_ignores_competing_symbol",
+                  lambda: "char %d: confidence %r, label %r, best competing symbol at the same frame %r; " % (i, lc[i], p_lab, q_here) + desc())
+        ctx.check(lc[i] >= max(0.0, p_lab - q_any) - 1e-5, "char_confidence_below_definition",
+                  lambda: "char %d: confidence %r, label %r, best competing symbol anywhere on the line %r; " % (i, lc[i], p_lab, q_any) + desc())
     ctx.check(0 <= nums["page_conf"] <= 1 + 1e-9, "line_confidence_out_of_range", lambda: "%r; " % nums["page_conf"] + desc())
     if case["seed"] % 4 == 0:
         # the degenerate line: a recogniser that returned no output frames at all (empty transcription)
